@@ -114,17 +114,23 @@ def pipeline(rep, cov, tier, seed, rng, text, msgs, label, probe_key=None):
         for p in tie_pairs:
             if p["ctx"] != "vanilla":
                 continue
+            dcl = p.get("declared")
+            if dcl and dcl["status"] != "same" and p["side"] == "writer":
+                rep.violation(f"C07/declared-size-const/{p['name']}", f"{p['name']}: the emitted size_without_header is `{dcl.get('rust')}` but the program's constant size is {dcl.get('model_fixed', dcl.get('model'))}",
+                              {"program": text[text.find(p["name"]):][:600], "declared": dcl, "input": "every value of the message"}, no_input=False)
             if p["status"] == "same":
                 n_tie_same += 1
                 continue
+            if p["status"] == "outside":
+                continue          # size() of a program with conditional members: not compared term by term (the emitted codec is run on its values below)
             ptxt = text[text.find(p["name"]):]
             ptxt = ptxt[:ptxt.find("versions")]
             tie_key = f"C07/codec-tie/{p['side']}/{p['name']}"
             if "current_size of the endless array is a static sum" in (p.get("detail") or ""):
                 tie_key = "C07/endless-array-after-if/current_size"
-            rep.violation(probe_key or tie_key, f"generated program {p['name']}: the emitted {p['side']} is not the {'decoder' if p['side'] == 'reader' else 'encoder'} of the definition ({p['status']}): {p.get('detail', '')[:300]}",
+            rep.violation(probe_key or tie_key, f"generated program {p['name']}: the emitted {p['side']} is not the {'decoder' if p['side'] == 'reader' else 'size function' if p['side'] == 'size' else 'encoder'} of the definition ({p['status']}): {p.get('detail', '')[:300]}",
                           {"program": p["name"], "programs": prog_path, "definition": ptxt[:1500], "side": p["side"], "status": p["status"], "difference": p.get("detail"), "emitted_file": p.get("rust_file"),
-                           "theorem": "writer_encodes_as_spec / readerE_decodes_as_spec via progeq"}, no_input=True)
+                           "theorem": "writer_encodes_as_spec / readerE_decodes_as_spec via progeq; size_matches_sound via sizeeq"}, no_input=True)
         cov["emitted_codecs_equal_to_normal_form"] = n_tie_same
         cov["emitted_codecs_compared"] = sum(1 for p in tie_pairs if p["ctx"] == "vanilla")
         # build the emitted library + harness (reduced configuration: vanilla, blocking) against the scratch tree
@@ -236,6 +242,9 @@ def run(tier, seed):
     rep = Report(PID, tier, seed, "proof")
     po = proof_obligations("WowVerif.Thm.C07", ["wowdrv"])
     add_proof_failures(rep, po)
+    po_b = proof_obligations("WowVerif.Thm.C07b")      # size_fn_sound / size_matches_sound: the declared size as a function of the value
+    add_proof_failures(rep, po_b)
+    po = dict(po, theorems=dict(po["theorems"], **po_b["theorems"]), obligations=po["obligations"] + po_b["obligations"], discharged=po["discharged"] + po_b["discharged"])
     rng = SplitMix64(seed)
     nprog = 24 if tier == "quick" else 160
     while True:
